@@ -231,11 +231,17 @@ Qed.
 Example exception_only_split_nonvacuous :
   let nm := [(cn_Interface, 0%N); (cn_Exception, 5%N)] in
   let a := mkArgs 1%N 0%N [] [] None false 3%N in
-  map (fun v => s_cls (r_slot v)) (regs_of_decl spec_params pred_names nm (mkDecl DView (Some 7%N) false true a 0%N no_body))
+  map (fun v => s_cls (r_slot v)) (regs_of_decl spec_params pred_names nm (mkDecl DView (Some 7%N) false true a 0%N no_body None false))
     = [0%N; 1%N]
-  /\ map (fun v => s_cls (r_slot v)) (regs_of_decl spec_params pred_names nm (mkDecl DView (Some 7%N) true true a 0%N no_body))
+  /\ map (fun v => s_cls (r_slot v)) (regs_of_decl spec_params pred_names nm (mkDecl DView (Some 7%N) true true a 0%N no_body None false))
     = [1%N]
-  /\ map (fun v => s_cls (r_slot v)) (regs_of_decl spec_params pred_names nm (mkDecl DExcView None false false a 0%N no_body))
+  /\ map (fun v => s_cls (r_slot v)) (regs_of_decl spec_params pred_names nm (mkDecl DExcView None false false a 0%N no_body None false))
     = [1%N]
-  /\ regs_of_decl spec_params pred_names nm (mkDecl DView (Some 7%N) true false a 0%N no_body) = [].
+  /\ regs_of_decl spec_params pred_names nm (mkDecl DView (Some 7%N) true false a 0%N no_body None false) = [].
 Proof. vm_compute. repeat split; reflexivity. Qed.
+
+(* which object the built-in predicates consult (regenerated): containment looks at request.context, physical_path at
+   its context argument -- the property's reading *)
+Lemma predicate_receivers_ok :
+  (containment_reads_request_context, physical_path_reads_request_context) = (true, false).
+Proof. vm_compute. reflexivity. Qed.
